@@ -113,7 +113,7 @@ def run(tier, seed):
         for rr in (1, 2, 3):
             s2 = s0.replace('pre: 1 <= r <= 3 and 1 <= c <= 3', 'pre: r == %d and 1 <= c <= 3' % rr)
             if quick:
-                s2 = s2.replace('0 <= k < 5 and 0 <= ws < 3', 'k in (0, 1) and 0 <= ws < 3')
+                s2 = s2.replace('0 <= k < 6 and 0 <= ws < 3', 'k in (0, 3) and 0 <= ws < 3')
             h = Harness(ck, 'c01_array_r%d' % rr, s2); hs.append(h)
             batch.add(h, T, only=['array_ok'], bounds='array literal with %d rows x 1..3 columns, cell pool rotation, 3 whitespace forms, bare and as a function argument' % rr)
         for right in (False, True):
@@ -121,16 +121,16 @@ def run(tier, seed):
             h = Harness(ck, 'c01_refop_%s' % ('right' if right else 'left'), s2); hs.append(h)
             batch.add(h, T, only=['refop_ok'], bounds='reference operators ":" " " "," in pairs over 4 reference spellings, %s-nested' % ('right' if right else 'left'))
         for n in range(4 if quick else 5):
-            for a0 in range(6 if n >= 2 else 1):
+            for a0 in range(7 if n >= 2 else 1):
                 s2 = s0.replace('pre: 0 <= n <= 4 and 0 <= ws < 3', 'pre: n == %d and 0 <= ws < 3' % n)
                 if n >= 2:
-                    s2 = s2.replace('0 <= a0 < 6 and', 'a0 == %d and' % a0)
+                    s2 = s2.replace('0 <= a0 < NARGS and', 'a0 == %d and' % a0)
                 if n >= 3 and quick:
-                    s2 = s2.replace('0 <= a2 < 6 and 0 <= a3 < 6', 'a2 in (0, 4) and a3 == 0')
+                    s2 = s2.replace('0 <= a2 < NARGS and 0 <= a3 < NARGS', 'a2 in (0, 4, 6) and a3 == 0')
                 if n == 4:
-                    s2 = s2.replace('0 <= a2 < 6 and 0 <= a3 < 6', 'a2 in (0, 2, 4) and a3 in (0, 5)')
+                    s2 = s2.replace('0 <= a2 < NARGS and 0 <= a3 < NARGS', 'a2 in (0, 2, 4, 6) and a3 in (0, 5)')
                 h = Harness(ck, 'c01_func_n%d_a%d' % (n, a0), s2); hs.append(h)
-                batch.add(h, T, only=['func_ok'], bounds='%d arguments from the 6-entry pool (empty, number, sum, string with comma, parenthesised union, signed)%s, nested or not, 3 whitespace forms, letter case' % (n, ', first fixed to entry %d' % a0 if n >= 2 else ''))
+                batch.add(h, T, only=['func_ok'], bounds='%d arguments from the 7-entry pool (empty, number, sum, string with comma, parenthesised union, signed, percent)%s, nested or not, 3 whitespace forms, letter case' % (n, ', first fixed to entry %d' % a0 if n >= 2 else ''))
         batch.run()
     finally:
         for h in hs:
